@@ -22,6 +22,7 @@ import urllib.parse
 
 from harness import common
 from harness.impl import recipes as R
+from harness.impl import c07_worlds as W
 
 K = 16384
 OPS = ('validate', 'dump', 'write_stream', 'write', 'infohash', 'magnet', 'is_ready')
@@ -29,7 +30,9 @@ RULE = ('metainfo recipes = valid single/multi-file metainfo + 0..3 mutations at
         'value from a type table incl. bool/float/NaN/inf/2^53/10^400/bytes/tuple/dict/None/opaque, '
         'negate/fractionalise/compensate lengths, both/neither of length+files, non-str keys, container '
         'swaps list->tuple/dict/bytes, bad URLs, md5sum, pieces length) + metainfo reached by random '
-        'attribute-assignment sequences + content-path cases + values outside PyVal (set, generator, '
+        'attribute-assignment sequences + content-path cases (classic tree damage, and 78 kinds of worlds '
+        'created after the path was set: every kind of answer os.stat can give for a listed path or the content '
+        'root, each kind once per run + random ones) + values outside PyVal (set, generator, '
         'bytearray, cyclic, deep; implementation vs specification only); non-trivial = at least one '
         'mutation/assignment applied; distinct = distinct canonical recipe JSON')
 
@@ -422,6 +425,55 @@ def gen_fs_case(rng):
             'kind': 'fs', 'labels': ['fs:' + disturb]}
 
 
+def gen_world_case(rng, world=None, multi=None, mutate_p=0.25, layout=None):
+    """content path set, then the world changes: a listed path (or the content root) for which the OS
+    answers something else than "regular file of the listed size" — see harness/impl/c07_worlds.py"""
+    if world is None:
+        multi = rng.random() < 0.7 if multi is None else multi
+        world = rng.choice(W.FILE_WORLDS + W.ROOT_WORLDS if multi else W.ROOT_WORLDS)
+    elif multi is None:
+        multi = world in W.FILE_WORLDS or rng.random() < 0.5
+    files = layout or W.layout(rng, multi)
+    md = W.base_md(files, multi)
+    wd = W.describe(rng, world, files, multi)
+    labels = ['world:' + world]
+    if rng.random() < mutate_p:
+        try:
+            md, lab = mutate(md, rng)
+            if lab != 'none':
+                labels.append(lab)
+        except OverflowError:
+            pass
+    return {'md': md, 'fs': {'multi': multi, 'files': files, 'disturb': 'none', 'which': wd['entry']['which'],
+                             'world': wd},
+            'kind': 'fs', 'labels': labels}
+
+
+def world_sweep(rng, mutate_p=0.0):
+    """every world once: file worlds on a multi-file torrent, root worlds on both kinds"""
+    out = [gen_world_case(rng, w, True, mutate_p) for w in W.FILE_WORLDS]
+    for w in W.ROOT_WORLDS:
+        out.append(gen_world_case(rng, w, True, mutate_p))
+        out.append(gen_world_case(rng, w, False, mutate_p))
+    return out
+
+
+def worlds_around(rng, case):
+    """the metainfo and layout of `case` (which has a content path) in every world, for every listed file"""
+    fs = case.get('fs')
+    if not fs:
+        return []
+    out = []
+    multi, files = fs['multi'], fs['files']
+    for w in (W.FILE_WORLDS + W.ROOT_WORLDS if multi else W.ROOT_WORLDS):
+        for _ in range(len(files) if w in W.FILE_WORLDS else 1):
+            wd = W.describe(rng, w, files, multi)
+            out.append({'md': case['md'], 'fs': {'multi': multi, 'files': files, 'disturb': 'none',
+                                                 'which': wd['entry']['which'], 'world': wd},
+                        'kind': 'fs', 'labels': ['world:' + w, 'around-break']})
+    return out
+
+
 FIXED = [
     # (label, top extras, info extras)  — the candidate list of DESIGN §7 C07 / §8
     ('files-mapping', {}, {'files': R.D([(R.I(0), R.D([('length', R.I(5)), ('path', R.L([R.S('a')]))]))])}),
@@ -501,21 +553,9 @@ def err_kind(torf, e):
 def fresh(torf, md_recipe, fs=None, wd=None):
     t = torf.Torrent()
     if fs is not None:
-        root = os.path.join(wd, 'T')
-        shutil.rmtree(root, ignore_errors=True)
-        if os.path.lexists(root):
-            os.remove(root)
-        if fs['multi']:
-            for f in fs['files']:
-                p = os.path.join(root, *f['comps'])
-                os.makedirs(os.path.dirname(p), exist_ok=True)
-                with open(p, 'wb') as fh:
-                    fh.write(b'\0' * f['size'])
-        else:
-            with open(root, 'wb') as fh:
-                fh.write(b'\0' * fs['files'][0]['size'])
+        root = W.build_tree(wd, fs)          # <wd>/P/T, the tree the torrent is created from
         t.path = root
-        d = fs['disturb']
+        d = fs.get('disturb', 'none')
         victim = os.path.join(root, *fs['files'][fs['which']]['comps']) if fs['multi'] else root
         if d == 'remove-file' and fs['multi']:
             os.remove(victim)
@@ -536,29 +576,12 @@ def fresh(torf, md_recipe, fs=None, wd=None):
                 shutil.rmtree(root)
             else:
                 os.remove(root)
+        # the world: nodes created / replaced / locked after the path was set
+        W.apply_nodes(wd, fs.get('world') or {})
     m = t.metainfo
     m.clear()
     m.update(R.build(md_recipe))
     return t
-
-
-def fs_facts(t, md_recipe):
-    """what os.path / real_size answer for the current tree (the model's FsOracle)"""
-    root = str(t.path)
-    facts = {'rootIsFile': os.path.isfile(root), 'rootIsDir': os.path.isdir(root),
-             'rootSize': os.path.getsize(root) if os.path.isfile(root) else 0, 'files': []}
-    info = R.dget(md_recipe, 'info')
-    fl = R.dget(info, 'files') if info is not None else None
-    if fl is not None and fl['t'] in ('l', 'u'):
-        for f in fl['v']:
-            fact = [False, False, 0]
-            p = R.dget(f, 'path') if f['t'] == 'd' else None
-            if p is not None and p['t'] in ('l', 'u') and p['v'] and all(c['t'] == 's' for c in p['v']):
-                fp = os.path.join(root, os.path.join(*[c['v'] for c in p['v']]))
-                ex, isf = os.path.exists(fp), os.path.isfile(fp)
-                fact = [ex, isf, os.path.getsize(fp) if isf else 0]
-            facts['files'].append(fact)
-    return facts
 
 
 def apply_history(torf, t, ops):
@@ -578,42 +601,60 @@ def apply_history(torf, t, ops):
             pass    # a refused assignment is part of the history
 
 
-def run_exports(torf, make, wd):
-    """make() -> fresh Torrent; returns {op: ['ok', payload] | ['err', kind]}"""
+class _NoGuard:
+    def __enter__(self):
+        return self
+
+    def __exit__(self, *a):
+        return False
+
+
+def run_exports(torf, make, wd, guard=_NoGuard):
+    """make() -> fresh Torrent; returns {op: ['ok', payload] | ['err', kind]}.  The object (and its
+    world) is built unguarded; `guard()` — the world's identity and injected stat failures — is active
+    only while the export itself runs."""
     obs = {}
+    outdir = os.path.join(wd, 'out')
+    if not os.path.isdir(outdir):
+        os.makedirs(outdir)
+        os.chmod(outdir, 0o777)        # also writable for the unprivileged identity
     for op in OPS:
         try:
             t = make()
-            if op == 'validate':
-                t.validate()
-                r = None
-            elif op == 'dump':
-                r = t.dump().hex()
-            elif op == 'write_stream':
-                s = io.BytesIO(b'OLD')
-                s.seek(1)
-                t.write_stream(s)
-                r = s.getvalue().hex()
-            elif op == 'write':
-                p = os.path.join(wd, 'out.torrent')
-                if os.path.lexists(p):
-                    os.remove(p)
-                try:
-                    t.write(p)
-                    with open(p, 'rb') as fh:
-                        r = fh.read().hex()
-                finally:
+        except Exception as e:  # noqa
+            raise RuntimeError(f'cannot build the case: {type(e).__name__}: {e}')
+        try:
+            with guard():
+                if op == 'validate':
+                    t.validate()
+                    r = None
+                elif op == 'dump':
+                    r = t.dump().hex()
+                elif op == 'write_stream':
+                    s = io.BytesIO(b'OLD')
+                    s.seek(1)
+                    t.write_stream(s)
+                    r = s.getvalue().hex()
+                elif op == 'write':
+                    p = os.path.join(outdir, 'out.torrent')
                     if os.path.lexists(p):
                         os.remove(p)
-            elif op == 'infohash':
-                r = t.infohash
-            elif op == 'magnet':
-                t.magnet()
-                r = 'magnet'
-            else:
-                r = t.is_ready
-                if not isinstance(r, bool):
-                    r = repr(r)
+                    try:
+                        t.write(p)
+                        with open(p, 'rb') as fh:
+                            r = fh.read().hex()
+                    finally:
+                        if os.path.lexists(p):
+                            os.remove(p)
+                elif op == 'infohash':
+                    r = t.infohash
+                elif op == 'magnet':
+                    t.magnet()
+                    r = 'magnet'
+                else:
+                    r = t.is_ready
+                    if not isinstance(r, bool):
+                        r = repr(r)
             obs[op] = ['ok', r]
         except RecursionError:
             obs[op] = ['err', 'internal:RecursionError']
@@ -641,14 +682,23 @@ def _run_chunk(cases):
                 def make(snap=snap):
                     return fresh(torf, snap)
             elif c['kind'] == 'fs':
+                world = c['fs'].get('world') or {}
+                fresh(torf, c['md'], c['fs'], wd)                    # the world exists once …
+                c = dict(c, md=W.finalise_md(c['md'], world, wd))    # … so that the metainfo can refer to it
+                root = W.content_root(wd)
+
                 def make(c=c):
                     return fresh(torf, c['md'], c['fs'], wd)
-                t1 = make()
-                extra['fs'] = fs_facts(t1, c['md'])
+
+                def guard(c=c, world=world, root=root):
+                    return W.Guard(world, root, c['md'])
+                make()
+                with guard():                                        # what the OS answers in this world
+                    extra['fs'] = W.fs_facts(root, c['md'])
             else:
                 def make(c=c):
                     return fresh(torf, c['md'])
-            obs = run_exports(torf, make, wd)
+            obs = run_exports(torf, make, wd, guard) if c['kind'] == 'fs' else run_exports(torf, make, wd)
         except Exception as e:  # noqa  (construction problems are harness problems)
             obs = {'harness-error': f'{type(e).__name__}: {e}'}
         out.append((c, obs, extra))
@@ -821,6 +871,14 @@ def evaluate(ctx, drv, cases):
                 ctx.machinery_error(f'model {name} = {m["err"]} under the hypothesis outsideD07f of C07_validate_only_metainfo_error / C07_only_metainfo_error_*_partial', case)
         if 'ok' in rep['dump'] and not (rep['modelSound'] or {}).get('sound'):
             ctx.machinery_error('model dump not Sound although C07_export_sound is proved', case)
+        if not rep.get('blurSame', True):
+            ctx.machinery_error('model validate/dump differ in the world with every stat failure blurred to ENOENT '
+                                'although C07_fs_failure_invisible is proved', case)
+        if 'fs' in extra:
+            w = (case.get('fs') or {}).get('world') or {}
+            ctx.dist['world:' + w.get('kind', 'classic/' + (case.get('fs') or {}).get('disturb', '?'))] += 1
+            for a in [extra['fs']['root']] + extra['fs']['files']:
+                ctx.dist['stat:' + (a[1] if a[0] == 'err' else a[0])] += 1
         if ('ok' in rep['ready'] and rep['ready']['ok']) != ('ok' in rep['validate']):
             ctx.machinery_error('model is_ready != (validate = ok) although C07_ready_iff is proved', case)
 
@@ -855,7 +913,9 @@ def gen_cases(ctx, scale=1.0):
     cases += [gen_case(rng) for _ in range(int(ctx.n(9000, 160000) * scale))]
     cases += [gen_case(rng, outside=True) for _ in range(int(ctx.n(600, 8000) * scale))]
     cases += [gen_history(rng) for _ in range(int(ctx.n(1500, 24000) * scale))]
-    cases += [gen_fs_case(rng) for _ in range(int(ctx.n(500, 6000) * scale))]
+    cases += [gen_fs_case(rng) for _ in range(int(ctx.n(300, 4000) * scale))]
+    cases += world_sweep(rng)
+    cases += [gen_world_case(rng) for _ in range(int(ctx.n(500, 8000) * scale))]
     return cases
 
 
@@ -887,7 +947,15 @@ def run(ctx, drv):
         'checked on the implementation against the specification only',
         'Torrent objects created from a magnet link carry a stored _infohash that infohash falls back to; '
         'the model covers torrents without it',
-        'file-system facts (isfile/isdir/exists/size) are an oracle parameter evaluated on the real tree',
+        'the file system is an input: for the content root and every listed path the harness records what os.stat '
+        'answers in the case\'s world (regular file / directory / other node + size, the errno of the failure, or '
+        'ValueError for an embedded null byte) and the model gets exactly these answers; worlds are real trees changed '
+        'after Torrent.path was set (names of 255/256/300 bytes, paths of 4095/4096/4097+ bytes, NUL, symlink loops, '
+        'dangling and good links, a file where a directory is expected and vice versa, FIFOs, sockets), an unprivileged '
+        'identity (effective uid 65534 while the export runs; needs a root harness, otherwise the world is the same '
+        'without it) and os.stat/os.lstat failures injected for the listed paths only (EIO, ESTALE, EOVERFLOW, …) by '
+        'replacing the two functions of the os module in the worker process, so that os.path.*, pathlib and a direct '
+        'os.stat all get the same answer; the world is consistent: one path, one answer during one call',
     ]
     batch = 40000
     cases = load_corpus() + gen_cases(ctx)
@@ -897,6 +965,20 @@ def run(ctx, drv):
 
 
 def search(ctx, drv):
+    # (1) directed: every correspondence break that has a content path is re-run in every world (each kind
+    #     of answer the OS can give for each listed path and for the content root), and all worlds are
+    #     swept again with fresh layouts, with and without metainfo mutations
+    cases = []
+    for b in ctx.corr_breaks[:12]:
+        cases += worlds_around(ctx.rng, b['case'])
+    for _ in range(3):
+        cases += world_sweep(ctx.rng)
+        cases += world_sweep(ctx.rng, mutate_p=0.6)
+    for i in range(0, len(cases), 40000):
+        evaluate(ctx, drv, cases[i:i + 40000])
+    if ctx.violations:
+        return
+    # (2) undirected: twice the normal budget
     cases = gen_cases(ctx, scale=2.0)
     for i in range(0, len(cases), 40000):
         evaluate(ctx, drv, cases[i:i + 40000])
